@@ -31,17 +31,34 @@ Fixpoint universal_newlines (s : str) : str :=
   | c :: r => c :: universal_newlines r
   end.
 
-(* int(s) for ASCII input: optional sign, digits, single underscores between
-   digits, surrounding whitespace.  None = ValueError.  (int() also accepts
-   non-ASCII decimal digits; not modelled.) *)
+(* int(s): optional sign, decimal digits of any script (Unicode category Nd, as
+   CPython 3.12 / Unicode 15 knows them: 68 runs of ten consecutive code points,
+   listed by their zero), single underscores between digits, surrounding
+   whitespace.  None = ValueError. *)
+Definition nd_zeros : list N :=
+  [48; 1632; 1776; 1984; 2406; 2534; 2662; 2790; 2918; 3046; 3174; 3302; 3430; 3558; 3664; 3792; 3872; 4160;
+   4240; 6112; 6160; 6470; 6608; 6784; 6800; 6992; 7088; 7232; 7248; 42528; 43216; 43264; 43472; 43504; 43600;
+   44016; 65296; 66720; 68912; 69734; 69872; 69942; 70096; 70384; 70736; 70864; 71248; 71360; 71472; 71904;
+   72016; 72784; 73040; 73120; 73552; 92768; 92864; 93008; 120782; 120792; 120802; 120812; 120822; 123200;
+   123632; 124144; 125264; 130032].
+Fixpoint digit_in (zs : list N) (c : N) : option N :=
+  match zs with
+  | [] => None
+  | z :: r => if (z <=? c) && (c <? z + 10) then Some (c - z) else digit_in r c
+  end.
+Definition digit_value (c : N) : option N := digit_in nd_zeros c.
+
 Fixpoint pyint_aux (acc : N) (last_us : bool) (s : str) : option N :=
   match s with
   | [] => if last_us then None else Some acc
   | c :: r =>
-      if is_ascii_digit c then pyint_aux (acc * 10 + (c - 48)) false r
-      else if (c =? 95) && negb last_us then
-        match r with [] => None | _ => pyint_aux acc true r end
-      else None
+      match digit_value c with
+      | Some d => pyint_aux (acc * 10 + d) false r
+      | None =>
+          if (c =? 95) && negb last_us then
+            match r with [] => None | _ => pyint_aux acc true r end
+          else None
+      end
   end.
 Definition py_int (s0 : str) : option Z :=
   let s := strip s0 in
@@ -52,9 +69,10 @@ Definition py_int (s0 : str) : option Z :=
                       end in
   match body with
   | c :: _ =>
-      if is_ascii_digit c then
-        option_map (fun n => if neg : bool then (- Z.of_N n)%Z else Z.of_N n) (pyint_aux 0 false body)
-      else None
+      match digit_value c with
+      | Some _ => option_map (fun n => if neg : bool then (- Z.of_N n)%Z else Z.of_N n) (pyint_aux 0 false body)
+      | None => None
+      end
   | [] => None
   end.
 
